@@ -282,14 +282,14 @@ def entity_choices(fo: oracle.FormOracle, itype, mode="full"):
 # one configuration: build, compile, run every (type, id) x geometry x entity x code, compare with R
 # ---------------------------------------------------------------------------------------------------
 def check_form_against_oracle(form, mesh, cell, geom, scalar, options, seed, entity_mode="sweep", instances=("ref", "aff", "rev"),
-                              cmplx_data=None, max_calls=None, keep=False, poison=False, check_positions=False):
+                              cmplx_data=None, max_calls=None, keep=False, poison=False, check_positions=False, oracle_degree_shift=0):
     """Returns dict(status, evaluations, nontrivial, maxerr, failures=[...], notes)."""
     cmplx = "complex" in scalar
     if cmplx_data is None:
         cmplx_data = cmplx
     res = dict(status="ok", evaluations=0, nontrivial=0, maxerr=0.0, failures=[], tolerance_induced=0, kernels=0)
     try:
-        fo = oracle.FormOracle(form, cmplx=cmplx, tensor_product=bool((options or {}).get("sum_factorization")))
+        fo = oracle.FormOracle(form, cmplx=cmplx, tensor_product=bool((options or {}).get("sum_factorization")), degree_shift=oracle_degree_shift)
     except Exception as e:
         res["status"] = "rejected"
         res["why"] = f"UFL: {type(e).__name__}: {str(e)[:120]}"
